@@ -151,7 +151,15 @@ func (e *Engine) makeCtx(ti, opIdx int, gid uint64, idx int) context.Context {
 		pc()
 		ctx, cancel = context.WithCancel(parent)
 	default:
+		if spec.Wrap {
+			type bgKey struct{}
+			return context.WithValue(context.Background(), bgKey{}, 1)
+		}
 		return context.Background()
+	}
+	if spec.Wrap {
+		type ctxKey struct{}
+		ctx = context.WithValue(ctx, ctxKey{}, idx)
 	}
 	a := arrival{gid: gid, site: SiteCtxMade, task: ti, opIdx: opIdx, ctxIdx: idx, cancel: cancel}
 	if r := e.park(&a); r.action != actProceed {
